@@ -27,7 +27,10 @@ RULE = (
     "output method last/all, under seeded per-iteration latencies of every body/conditional/DB operation. Oracle: "
     "exactly one output per instance with the instance tag and the value from the sequential reference (last "
     "iteration value / all values in iteration order; null / [] for 0 iterations), termination after all of them, "
-    "run terminates (no quiescence). non-trivial = non-zero delays applied; distinct = distinct loop digests"
+    "run terminates (no quiescence). Direct family (enumerated_cases): CWLLoopOutputLast/AllStep alone, fed by 1..2 "
+    "producers with the value tokens <p>.<i> and the iteration-termination token <p>.<count> of 1..4 instances (tags "
+    "incl. 0.9/0.10/0.11) in a SHUFFLED arrival order - values overtaking each other, the count arriving before, between "
+    "or after the values - same oracle. non-trivial = non-zero delays applied or a shuffled arrival; distinct = loop digests"
 )
 COMPONENTS = {
     "real": ["LoopCombinatorStep", "LoopCombinator", "LoopTerminationCombinator", "CombinatorStep", "LoopOutputStep.run",
@@ -66,7 +69,96 @@ class SimLoopConditional(CWLLoopConditionalStep):
         return x["i"] < x["n"]
 
 
+def cases(tier):
+    # direct family: the loop output step alone, fed with the iteration tokens of 1..4 instances in a shuffled arrival order
+    return [{"family": "direct"} for _ in range(500 if tier == "quick" else 20000)]
+
+
+def run_direct(sim, params):
+    """CWLLoopOutputLast/AllStep driven directly: values `<p>.<i>` and the iteration-termination token `<p>.<count>` of
+    every instance arrive in a seed-chosen order (values overtaking each other, count before / between / after values)."""
+    import asyncio
+
+    from streamflow.core.workflow import Token
+
+    t = sim.tape
+    method = ("last", "all")[t.draw(2, "method")]
+    base = ("0", "0.4", "0.10")[t.draw(3, "base")]
+    ninst = 1 + t.draw(4, "ninst")
+    prefixes = [base] if ninst == 1 else [f"{base}.{i}" for i in ((0, 1, 2, 3) if t.draw(2, "inst.tags") else (1, 9, 10, 11))[:ninst]]
+    counts = {p: COUNTS[t.draw(len(COUNTS), "count")] for p in prefixes}
+    if sum(counts.values()) > 40:
+        counts = {p: min(c, 11) for p, c in counts.items()}
+    items = []
+    for p, n in counts.items():
+        items += [("v", p, i) for i in range(n)] + [("n", p, n)]
+    order = t.shuffle(items, "arrival") if t.draw(4, "shuffled") else items
+    nprod = 1 + t.draw(2, "producers")
+    info = {"mode": "direct", "method": method, "counts": counts, "arrival": [f"{k}{p}.{i}" for k, p, i in order][:60], "producers": nprod}
+    state = {}
+
+    async def main():
+        ctx = make_context(sim)
+        wf = Workflow(context=ctx, name="w", config={})
+        step = wf.create_step(CWLLoopOutputLastStep if method == "last" else CWLLoopOutputAllStep, name="/loop-output")
+        pin, pout = wf.create_port(), wf.create_port()
+        step.add_input_port("x", pin)
+        step.add_output_port("x", pout)
+        await wf.save(ctx.database)
+        state.update(ctx=ctx, pout=pout, step=step)
+        run_task = asyncio.create_task(step.run(), name="/loop-output")
+
+        async def producer(k):
+            for j, (kind, p, i) in enumerate(order):
+                if j % nprod != k:
+                    continue
+                await sim.io("produce", f"{p}")
+                tok = Token(value=f"{p}#{i}", tag=f"{p}.{i}") if kind == "v" else IterationTerminationToken(tag=f"{p}.{i}")
+                await tok.save(ctx.database, port_id=pin.persistent_id)
+                pin.put(tok)
+
+        await asyncio.gather(*(asyncio.create_task(producer(k), name=f"producer{k}") for k in range(nprod)))
+        pin.put(TerminationToken())
+        await run_task
+
+    sim.run(main())     # quiescence before the step terminates = the step waits for an output that will never come
+    got = []
+    for tok in state["pout"].token_list:
+        if isinstance(tok, TerminationToken):
+            got.append(("TERM", tok.value.name))
+        elif isinstance(tok, IterationTerminationToken):
+            got.append(("ITERM", tok.tag))
+        else:
+            got.append((tok.tag, plain(tok)))
+    d = f"case={canon(info)[:900]}"
+    if not got or got[-1][0] != "TERM":
+        raise Violation("no_final_termination", f"loop output port does not end with a termination token: {got[-3:]}; {d}", signature="direct:no_final_termination")
+    by_tag = {}
+    for g in got[:-1]:
+        if g[0] in ("TERM", "ITERM"):
+            raise Violation("unexpected_token", f"unexpected {g} on the loop output port; {d}", signature="direct:unexpected_token")
+        by_tag.setdefault(g[0], []).append(g[1])
+    for p, n in counts.items():
+        vals = by_tag.get(p, [])
+        if len(vals) != 1:
+            raise Violation("wrong_output_count", f"instance {p} ({n} iterations) emitted {len(vals)} outputs: {vals[:3]}; {d}", signature=f"direct:wrong_output_count:{method}")
+        want = ([f"{p}#{i}" for i in range(n)] if method == "all" else (f"{p}#{n - 1}" if n else None))
+        if vals[0] != want:
+            raise Violation("wrong_output", f"instance {p} ({n} iterations, method {method}): got {str(vals[0])[:200]} expected {str(want)[:200]}; {d}",
+                            signature=f"direct:wrong_output:{method}")
+    if set(by_tag) - set(counts):
+        raise Violation("unexpected_instance", f"outputs for unknown instances {sorted(set(by_tag) - set(counts))}; {d}", signature="direct:unexpected_instance")
+    if not state["step"].terminated:
+        raise Violation("step_not_terminated", f"loop output step not terminated; {d}", signature="direct:step_not_terminated")
+    sim.run(state["ctx"].close())
+    sim.probe("direct." + method)
+    shuffled = [f"{k}{p}.{i}" for k, p, i in order] != [f"{k}{p}.{i}" for k, p, i in items]
+    return {"nontrivial": shuffled or nprod > 1, "sample": info}
+
+
 def run(sim, params):
+    if params.get("family") == "direct":
+        return run_direct(sim, params)
     t = sim.tape
     nvars = 1 + t.draw(3, "nvars")
     varnames = ["x", "y", "z"][:nvars]
